@@ -204,6 +204,15 @@ def oracle(cfg, bounds, args, r):
     n = r["num"]
     if not (len(r["names"]) == len(r["latex"]) == n):
         fails.append("length: names %d latex %d num_param %d" % (len(r["names"]), len(r["latex"]), n))
+    # every entry of a name list refers to ITS component: two components never carry the same plain or LaTeX name
+    for which in ("names", "latex"):
+        seen = {}
+        for i, nm in enumerate(r[which]):
+            if nm in seen:
+                fails.append("%s name %r is attached to two vector components: %d (%s) and %d (%s)"
+                             % ("LaTeX" if which == "latex" else "plain", nm, seen[nm], r["names"][seen[nm]], i, r["names"][i]))
+                break
+            seen[nm] = i
     if isinstance(r["lower"], dict) or isinstance(r["upper"], dict):
         fails.append("param_bounds raised %s" % (r["lower"] if isinstance(r["lower"], dict) else r["upper"]))
         return fails
